@@ -372,7 +372,7 @@ class Crate:
         n_before = s
         out = []
         pos = 0
-        cnt = {'R1': 0, "R1'": 0, 'R2': 0, 'R5': 0}
+        cnt = {'R1': 0, "R1'": 0, 'R2': 0, 'R5': 0, 'R10': 0}
         for m in re.finditer(r'\b([ui](?:8|16|32|64|128))::from_be_bytes\(', s):
             if m.start() < pos:
                 continue
@@ -412,6 +412,10 @@ class Crate:
         cnt['R2'] += n
         s, n = re.subn(r'Err\(std::fmt::Error\)', 'Err(crate::vx::fmt_error())', s)
         cnt['R5'] += n
+        s, n = re.subn(r'(\|[^|\n]*\|)\s*std::fmt::Error\b', r'\1 crate::vx::fmt_error()', s)
+        cnt['R5'] += n
+        s, n = re.subn(r'\|_\|', '|_vx_unused|', s)   # R10: Verus rejects `_` closure parameters
+        cnt['R10'] = n
         if s != n_before:
             self.wr(rel, s)
             for r, c in cnt.items():
